@@ -42,6 +42,9 @@ func c17record(i int) chartconfig.ChartConfig {
 	if d > 0 {
 		r.Type = "stack"
 		r.Depth = d
+	} else if vrt.Bool() {
+		// a stack-typed record without a depth is valid input (validate accepts it) and is a counter
+		r.Type = "stack"
 	}
 	return r
 }
